@@ -17,6 +17,8 @@ pub struct Drv<A: Cx> {
     pub sink: Option<(std::io::BufWriter<std::fs::File>, String)>,
     /// own stream for the decision to ask an observer a second time (does not disturb the scenario's)
     pub again: Rng,
+    /// while set, every emitted call carries `nocanon` (the view leaves structural equality out)
+    pub nocanon: bool,
 }
 
 pub fn step(f: &str, a: usize, b: usize) -> Value {
@@ -33,7 +35,7 @@ pub fn sl(r: usize, a: usize, b: usize) -> Value {
 
 impl<A: Cx> Drv<A> {
     pub fn new(rng: Rng) -> Self {
-        Drv { w: World::new(), rng, out: Vec::new(), sink: None, again: Rng::new(0xA6A1) }
+        Drv { w: World::new(), rng, out: Vec::new(), sink: None, again: Rng::new(0xA6A1), nocanon: false }
     }
 
     pub fn stream_to(&mut self, path: &str) {
@@ -50,7 +52,10 @@ impl<A: Cx> Drv<A> {
         self.out.push(line);
     }
 
-    pub fn emit(&mut self, op: Value) -> Value {
+    pub fn emit(&mut self, mut op: Value) -> Value {
+        if self.nocanon {
+            op["nocanon"] = json!(true);
+        }
         if let Some((_, intent)) = self.sink.as_ref() {
             let _ = std::fs::write(intent, op.to_string());
         }
